@@ -137,9 +137,9 @@ struct Origin {
 
 fn origins(tier: &str, rng: &mut Rng) -> Vec<Origin> {
 	let mut out = Vec::new();
-	let mut ktypes = vec!["ed25519", "p256", "p384", "p521", "rsa2048"];
+	let mut ktypes = vec!["ed25519", "p256", "p384", "p521", "rsa2048", "rsa3072"];
 	if tier != "quick" {
-		ktypes.extend(["rsa3072", "rsa4096"]);
+		ktypes.push("rsa4096");
 	}
 	let default_alg = |kt: &str| match kt {
 		"ed25519" => "ed25519",
